@@ -59,6 +59,19 @@ class Plan:
         self.targets.append(c)
         return c
 
+    def import_targets(self, other, keep):
+        """Re-target contracts of another property's plan (verified here again, in their own context and with their own
+        native replay module): `keep(contract) -> bool` selects them."""
+        got = []
+        for c in other.targets:
+            if keep(c):
+                c.ctx = other.ctx
+                c.home = other
+                self.targets.append(c)
+                got.append(c)
+        self.imported = getattr(self, "imported", []) + [other]
+        return got
+
     def callee(self, c):
         """A contract used at call sites only (assumed or verified under another property)."""
         self.ctx.add(c)
